@@ -7,7 +7,9 @@ package c03
 import (
 	"encoding/base64"
 	"encoding/json"
+	"sort"
 	"strconv"
+	"strings"
 )
 
 // MyStr is a named string type (JSON-encoded even inside string literals).
@@ -29,10 +31,77 @@ type Rec struct {
 type Spec struct {
 	Shape string `json:"shape"`
 	Leaf  string `json:"leaf_base64"`
+	// Cuts (plain strings only): byte offsets at which the leaf is split into the
+	// pieces handed to adjacent interpolations {{ a }}{{ b }}[{{ c }}].
+	Cuts []int `json:"cuts,omitempty"`
 }
 
 func MkSpec(shape, leaf string) Spec {
-	return Spec{shape, base64.StdEncoding.EncodeToString([]byte(leaf))}
+	return Spec{Shape: shape, Leaf: base64.StdEncoding.EncodeToString([]byte(leaf))}
+}
+
+// MkSplit is a plain string cut at the given byte offsets.
+func MkSplit(leaf string, cuts ...int) Spec {
+	sp := MkSpec("str", leaf)
+	sp.Cuts = cuts
+	return sp
+}
+
+// Pieces returns the n pieces of the leaf string (missing cuts = empty tail pieces).
+func (sp Spec) Pieces(n int) []any {
+	s := sp.LeafString()
+	cuts := append([]int{}, sp.Cuts...)
+	sort.Ints(cuts)
+	out := make([]any, 0, n)
+	prev := 0
+	for _, c := range cuts {
+		if len(out) == n-1 {
+			break
+		}
+		c = min(max(c, prev), len(s))
+		out = append(out, s[prev:c])
+		prev = c
+	}
+	out = append(out, s[prev:])
+	for len(out) < n {
+		out = append(out, "")
+	}
+	return out
+}
+
+// RawQuote is a JSON string literal of s that escapes only what JSON requires
+// (quote, backslash, C0 controls): <, >, &, U+2028/9 and all other bytes stay raw,
+// as pre-encoded JSON from elsewhere may contain them.
+func RawQuote(s string) string {
+	var sb strings.Builder
+	sb.WriteByte('"')
+	for i := 0; i < len(s); i++ {
+		switch c := s[i]; {
+		case c == '"' || c == '\\':
+			sb.WriteByte('\\')
+			sb.WriteByte(c)
+		case c < 0x20:
+			sb.WriteString("\\u00" + strconv.FormatInt(int64(c>>4), 16) + strconv.FormatInt(int64(c&15), 16))
+		default:
+			sb.WriteByte(c)
+		}
+	}
+	sb.WriteByte('"')
+	return sb.String()
+}
+
+// PreEncoded implements json.Marshaler with pre-encoded JSON text.
+type PreEncoded struct{ Text string }
+
+func (p PreEncoded) MarshalJSON() ([]byte, error) { return []byte(p.Text), nil }
+
+// RawDoc carries RawMessage fields inside a struct, a map and a slice.
+type RawDoc struct {
+	ID  int                        `json:"id"`
+	Doc json.RawMessage            `json:"doc"`
+	M   map[string]json.RawMessage `json:"m"`
+	L   []json.RawMessage          `json:"l"`
+	P   PreEncoded                 `json:"p"`
 }
 
 func (sp Spec) LeafString() string {
@@ -42,7 +111,12 @@ func (sp Spec) LeafString() string {
 
 // Shapes lists the value shapes; "json" parses the leaf as a JSON literal
 // (numbers, true/false/null); "int" as a Go int64.
-var Shapes = []string{"str", "named", "arr", "strslice", "mapval", "mapkey", "mapss", "nested", "struct", "json", "int"}
+var Shapes = []string{"str", "named", "arr", "strslice", "mapval", "mapkey", "mapss", "nested", "struct", "json", "int",
+	"raw", "rawindent", "rawstr", "marshaler", "rawfield"}
+
+// RawShapes are the shapes built from pre-encoded JSON text (json.RawMessage /
+// json.Marshaler) with the leaf inside strings, not HTML-escaped.
+var RawShapes = []string{"raw", "rawindent", "rawstr", "marshaler", "rawfield"}
 
 // Go builds the Go value.
 func (sp Spec) Go() any {
@@ -66,6 +140,20 @@ func (sp Spec) Go() any {
 		return map[string]any{"a": []any{map[string]any{s: []any{s, nil}}}, "b": false}
 	case "struct":
 		return Rec{Name: s, N: -2.5, Ok: true, Tags: []string{s}, Any: map[string]any{"x": s}, Inner: &Rec{Name: s}, Lt: s}
+	case "raw":
+		q := RawQuote(s)
+		return json.RawMessage(`{"k":` + q + `,"a":[` + q + `,1,null],` + q + `:true}`)
+	case "rawindent":
+		q := RawQuote(s)
+		return json.RawMessage("{\n  \"k\": " + q + ",\n  \"a\": [ " + q + " ,\t1, null ],\r\n  " + q + " : true\n}")
+	case "rawstr":
+		return json.RawMessage(RawQuote(s))
+	case "marshaler":
+		q := RawQuote(s)
+		return PreEncoded{`{"k":` + q + `,"a":[` + q + `]}`}
+	case "rawfield":
+		q := json.RawMessage(RawQuote(s))
+		return RawDoc{ID: 7, Doc: json.RawMessage(`{"k": ` + string(q) + `}`), M: map[string]json.RawMessage{"x": q}, L: []json.RawMessage{q, json.RawMessage("null")}, P: PreEncoded{string(q)}}
 	case "json":
 		var v any
 		if err := json.Unmarshal([]byte(s), &v); err != nil {
